@@ -39,7 +39,7 @@ pub fn accept_check(buf: &[u8], loc: &mut Local) {
                     format!("Err ({why}, {} bytes)", buf.len()),
                     format!("Ok(DF{} crc={:06x})", df_code(&f), f.crc),
                 ),
-                Decoded::Panic(p) => loc.viol("acceptance", format!("{class_df}:panic"), hex(buf), "Err".into(), format!("panic: {p}")),
+                Decoded::Panic(_) => loc.inc("panics_left_to_C01"),
             }
         }
         Ok(lay) => match real {
@@ -57,7 +57,7 @@ pub fn accept_check(buf: &[u8], loc: &mut Local) {
                     loc.viol("acceptance", format!("{}:rejected", lay.leaf), hex(buf), "Ok(frame)".into(), format!("Err({e})"));
                 }
             }
-            Decoded::Panic(p) => loc.viol("acceptance", format!("{}:panic", lay.leaf), hex(buf), "Ok(frame)".into(), format!("panic: {p}")),
+            Decoded::Panic(_) => loc.inc("panics_left_to_C01"),
         },
     }
 }
@@ -99,7 +99,7 @@ fn prefix_check(frame: &[u8], loc: &mut Local) {
                             "Ok (same as exact-length decode)".into(),
                             format!("Err({e})"),
                         ),
-                        Decoded::Panic(p) => loc.viol("trailing-bytes", "panic".into(), hex(buf), "Ok".into(), format!("panic: {p}")),
+                        Decoded::Panic(_) => loc.inc("panics_left_to_C01"),
                     }
                 }
             }
